@@ -50,16 +50,23 @@ func CheckPackageOnly(
 		reportedTypes := make(map[string]bool)
 		context.reportedTypes = &reportedTypes
 
+		// The selected identifier of "pkg.Name" is judged as part of the selector expression
+		selected := make(map[*ast.Ident]bool)
+
 		ast.Inspect(file, func(n ast.Node) bool {
 			switch node := n.(type) {
 			case *ast.SelectorExpr:
+				selected[node.Sel] = true
 				// Check selector expressions like "pkg.Type" or "pkg.Function"
 				if v := findSelectorExprViolation(&context, node); v != nil {
 					violations = append(violations, *v)
 				}
 
 			case *ast.Ident:
-				// Check identifier usage for local package objects
+				if selected[node] {
+					return true
+				}
+				// Check plain identifiers: objects of this package and names brought in by a dot import
 				if v := findIdentViolation(&context, node); v != nil {
 					violations = append(violations, *v)
 				}
@@ -137,26 +144,28 @@ func findIdentViolation(
 		return nil
 	}
 
-	// Only check local package objects (imports are handled by selector expressions)
-	if obj.Pkg() == nil || obj.Pkg().Path() != ctx.currentPkgPath {
+	// Universe objects have no package; a plain identifier denotes an object of this package
+	// or, with a dot import, of the imported one
+	if obj.Pkg() == nil {
 		return nil
 	}
+	declPkgPath := obj.Pkg().Path()
 
 	switch obj := obj.(type) {
 	case *types.TypeName:
 		if target := aliasTarget(obj); target != nil {
 			return findTypeViolation(ctx, target.Pkg().Path(), target.Name(), ident.Pos())
 		}
-		return findTypeViolation(ctx, ctx.currentPkgPath, obj.Name(), ident.Pos())
+		return findTypeViolation(ctx, declPkgPath, obj.Name(), ident.Pos())
 
 	case *types.Func:
 		if obj.Type() != nil && obj.Type().(*types.Signature).Recv() != nil {
 			// Method
 			recvType := util.ExtractTypeName(obj.Type().(*types.Signature).Recv().Type())
-			return findMethodViolation(ctx, ctx.currentPkgPath, recvType, obj.Name(), ident.Pos())
+			return findMethodViolation(ctx, declPkgPath, recvType, obj.Name(), ident.Pos())
 		} else {
 			// Function
-			return findFunctionViolation(ctx, ctx.currentPkgPath, obj.Name(), ident.Pos())
+			return findFunctionViolation(ctx, declPkgPath, obj.Name(), ident.Pos())
 		}
 	}
 
